@@ -1253,7 +1253,12 @@ func (r *Resolver) answer(ctx context.Context, req, resp *dns.Msg, parentDS []dn
 			if terminalNODATA {
 				middleware.PropagateValidatedNegativeProofResponse(ctx, targetMsg, resp)
 			}
-			resp.Ns = append(resp.Ns, targetMsg.Ns...)
+			// As for the name error above: what the outer zone's servers
+			// put in their authority and additional sections goes first,
+			// and the target's own proof is what the reply carries.
+			targetAuthority := append([]dns.RR(nil), targetMsg.Ns...)
+			resp = r.clearAdditional(req, resp, extra...)
+			resp.Ns = targetAuthority
 			return resp, nil
 		}
 	}
